@@ -96,7 +96,10 @@ def run_unit(unit, canary=False, use_cache=True, log_air=False):
     res["functions"] = info["functions"]
     res["rewrite_counts"] = info["rewrite_counts"]
     res["extract_warnings"] = info.get("warnings", [])
-    warned_fns = set(w["fn"] for w in res["extract_warnings"])
+    # only a lost proof-hint anchor makes a function's failures untrustworthy ("script misfit"); an annotation for a loop
+    # that no longer exists, or a rewrite rule with nothing left to rewrite, has simply nothing to attach to: the remaining
+    # (possibly loop-free) code is judged by Verus as it stands
+    warned_fns = set(w["fn"] for w in res["extract_warnings"] if w.get("kind", "anchor") == "anchor")
     res["trusted"] = trusted_scan(gen, linemap)
     tag = unit + ("_canary" if canary else "")
     gen_path = os.path.join(WORK, tag + ".rs")
